@@ -181,6 +181,23 @@ def run(ck: Check):
     for big in (unit * 900, unit * 1100 + b"t = 'a\\'b' + \"c\\\\\";\n", b"<a b='1' c=\"2\">\n" * 5000):
         for atom in ("jsstr", "attrs"):
             one(atom, big, model=False)
+    from runner import impl_run
+    for atom, data in (("attrs", b't.f();\n<a onclick="q.f()" id=k>x</a>\n<b c="d.e.f" g=h.i>\n'),
+                       ("jsstr", b"q.r = 'a.b.c' + f(\"d.e\", 'x');\nfunction f(a, b) { return a.c; }\nf('1', \"2\");\n")):
+        for strategy in ("replace-properties-by-globals", "replace-arguments-by-globals", "minimize", "minimize-around",
+                         "minimize-balanced", "minimize-collapse-brace"):
+            for v in ("Y" * 60, "Y" + "NY" * 30, "YN" + "Y" * 50):
+                run_ = impl_run(strategy, {}, None, data, v, atom=atom, load=True, cap=200)
+                ck.count("run-keeps-protected")
+                ck.nontrivial(("run-keeps-protected", atom, strategy, v[:3]))
+                if run_.exc not in (None,) or run_.last is None:
+                    continue
+                fixed0 = [p for p, f in zip(run_.loaded[1], run_.loaded[2]) if not f]
+                fixed1 = [p for p, f in zip(run_.last[1], run_.last[2]) if not f]
+                if fixed1 != fixed0 or run_.last[0] != run_.loaded[0] or run_.last[3] != run_.loaded[3]:
+                    ck.violation(f"[{atom}] after {strategy} (verdicts {v[:6]}..) the protected parts of the testcase are {fixed1!r}, "
+                                 f"they were {fixed0!r}: text that is not an atom was rewritten or made reducible",
+                                 {"atom": atom, "strategy": strategy, "data": data.hex(), "verdicts": v})
     model = run_model(cases, shards=16)
     from coqlit import xcheck
     xcheck(ck, cases, model)
